@@ -82,11 +82,13 @@ def canon(v):
     return "%s:%s" % (type(v).__name__, r)
 
 
-def make_resolver(coord):
+def make_resolver(coord, bundle=None):
     async def actor(parent, args, ctx, info):
         rt = _rt_of(ctx)
         path = tuple(info.path.as_list())
         loop = rt.loop
+        if bundle is not None and getattr(rt, "bundle", None) is not None and rt.bundle != bundle:
+            loop.ev("foreign_actor", rt.rid, bundle, rt.bundle, path)
         loop.ev("start", rt.rid, path)
         rt.started[path] = rt.started.get(path, 0) + 1
         ctx_ok = getattr(ctx, "rt", None) is rt
@@ -193,27 +195,43 @@ def make_source(coord):
     return source
 
 
-def register_bundle(schema, name, type_as_object=False):
-    """Register resolvers / type resolvers / scalars of a schema model under a schema name."""
+def bundle_steps(schema, name, type_as_object=False, bundle=None):
+    """The registrations of a schema model under a schema name, one callable per registered object:
+    [(kind, label, callable)] with kind in resolver|type_resolver|scalar|subscription."""
+    steps = []
     if schema.subscription:
         for f in schema.t(schema.subscription).fields.values():
-            Subscription("%s.%s" % (schema.subscription, f.name), schema_name=name)(make_source((schema.subscription, f.name)))
+            coord = (schema.subscription, f.name)
+            steps.append(("subscription", "%s.%s" % coord,
+                          lambda coord=coord: Subscription("%s.%s" % coord, schema_name=name)(make_source(coord))))
     for td in list(schema.types.values()):
         if td.kind == "OBJECT":
             for f in td.fields.values():
                 if f.impl != "resolver":
                     continue
-                kw = {}
-                if f.field_type_resolver:
-                    kw["type_resolver"] = make_type_resolver("_tn_field", type_as_object)
-                if f.ac:
-                    kw["arguments_coercer"] = gather_arguments_coercer if f.ac == "gather" else sync_arguments_coercer
-                Resolver("%s.%s" % (td.name, f.name), schema_name=name, list_concurrently=f.lc,
-                         parent_concurrently=f.pc, **kw)(make_resolver((td.name, f.name)))
+
+                def reg(td=td, f=f):
+                    kw = {}
+                    if f.field_type_resolver:
+                        kw["type_resolver"] = make_type_resolver("_tn_field", type_as_object)
+                    if f.ac:
+                        kw["arguments_coercer"] = gather_arguments_coercer if f.ac == "gather" else sync_arguments_coercer
+                    Resolver("%s.%s" % (td.name, f.name), schema_name=name, list_concurrently=f.lc,
+                             parent_concurrently=f.pc, **kw)(make_resolver((td.name, f.name), bundle))
+                steps.append(("resolver", "%s.%s" % (td.name, f.name), reg))
         elif td.kind in ("INTERFACE", "UNION") and td.type_resolver:
-            TypeResolver(td.name, schema_name=name)(make_type_resolver("_tn_type", type_as_object))
+            steps.append(("type_resolver", td.name,
+                          lambda td=td: TypeResolver(td.name, schema_name=name)(make_type_resolver("_tn_type", type_as_object))))
         elif td.kind == "SCALAR" and td.custom:
-            Scalar(td.name, schema_name=name)(XStr() if td.custom == "xstr" else XNum())
+            steps.append(("scalar", td.name,
+                          lambda td=td: Scalar(td.name, schema_name=name)(XStr() if td.custom == "xstr" else XNum())))
+    return steps
+
+
+def register_bundle(schema, name, type_as_object=False, bundle=None):
+    """Register resolvers / type resolvers / scalars / sources of a schema model under a schema name."""
+    for _, _, fn in bundle_steps(schema, name, type_as_object, bundle):
+        fn()
 
 
 ENGINE_CONFIGS = [
